@@ -291,6 +291,8 @@ func existsBefore(p *an.Prog, fn *ssa.Function, at ssa.Instruction, pred an.Pred
 // ------------------------------------------------------------------------------------------------
 
 func pubsubC07(c *Ctx) {
+	c.delegates("(*ChanPubSub).Subscribe", "(*ChanPubSub).Add", "recv", "int:1")
+	c.delegates("(*ChanPubSub).Unsubscribe", "(*ChanPubSub).Add", "recv", "int:-1")
 	P := c.P
 	// 7. no false "broken"
 	for _, name := range []string{"(*ChanPubSub).Send", "(*ChanPubSub).Add"} {
